@@ -4,8 +4,10 @@ Inputs: bundled typeshed stdlib modules, multi-file programs of the check-*.test
 (built like the repository's own tests), and generated libraries (vp/props/c11_gen.py).
 
 For every input and for both cache formats (JSON, binary "ff") one pool worker does
-  cold build (library analysed from source, cache written)   -> fresh interface dump, data records, client output
-  warm build (client touched, library loaded from the cache) -> reloaded dumps, client output, re-serialisation
+  cold build  (library analysed from source, cache written)   -> fresh interface dump (observed at write_cache
+                                                                  time), data records, client output
+  warm build  (clients touched, library loaded from the cache) -> client output
+  probe build (a new module that only imports the library)    -> reloaded dumps, re-serialisation, records
 and compares
   (a) format-diff        generic reflection walk of the JSON-reloaded vs the binary-reloaded symbol tables
   (b) interface-dump     fresh vs reloaded interface dump, per format
